@@ -167,4 +167,10 @@ def run(ctx):
         run.instance(R5, {"fn": "foreign::receive_tx", "obligation": "adds exactly one output to the slate (one call, not in a loop)"}, held=held)
         if not held:
             run.finding(Finding(R5, rtx.id, "receive_tx adds outputs more than once", site=rtx.loc()))
+    R6 = "C03.R6"
+    run.rule(R6, "a release touches only the cancelled transaction's own reservations (this log id, this account)", floor=3)
+    ctf = ctx.fn(c.LW + "internal::tx::cancel_tx")
+    if ctf:
+        from .shared import rollback_scope
+        rollback_scope(ctx, R6, ctf, ctf.id)
     run.not_decided += ["exclusivity as a statement about all interleaved histories (R1-R5 are the structural necessary conditions)", "finalize replay: covered by C02.R2 (context deleted => second finalize fails)"]
